@@ -20,6 +20,18 @@ CHECKS = {
  "C05": ("fault injection into clean programs, oracle = expected diagnostic kind at the planted site",
          "15 violation classes are planted one at a time into programs that are clean in the same run; a diagnostic of the expected kind must sit on the offending instruction/operand (label for fall-through; entry or related jump for jump-to-function).",
          "Expected-kind table is part of the design; collateral diagnostics are allowed."),
+ "C07": ("mutation workload + coverage/containment oracle over parser executions",
+         "One line of a one-statement-per-line file is replaced by a malformed one (15 defect kinds, first/middle/last/two consecutive lines), plus whole-file CR/LF endings and a final line truncated after each token with/without newline. Every non-blank line must yield a node starting on it or a parse error located on it, and all other lines must parse exactly as when the bad line is blank.",
+         "Trusts the harness's classification of which lines carry content."),
+ "C09": ("reference-model monitor for positions over lexer/parser/diagnostic executions",
+         "Every token of the real lexer, every parsed node, every parse error and diagnostic of programs printed in 7 layouts (header, first line, leading blank lines, styled, two statements per line, included files, no final newline) is checked against an independent line/column/raw model: mutually consistent, inside the file, on one line, and the slice is exactly the token / statement / register named.",
+         "Inclusive-end, char-indexed convention taken from the repository's golden JSON files."),
+ "C11": ("reference-model monitor at the quiescent point after gen_full_cfg",
+         "Call targets computed from the harness AST and reachable sets computed by BFS over the observed successor edges are compared with the function map, node lists, owner lists and exits of the finished graph for hand-written shapes (aliases, interleaved bodies, shared tails, fall-through entry, recursion, dead callers, multiple returns, interrupt handlers) and generated programs; sharing must be reported exactly when it exists.",
+         "Programs whose analysis fails are excluded (C16)."),
+ "C16": ("failure-shape workload + oracle on the reported error (kind, file, range, text) and on default CLI visibility",
+         "Programs that parse but may be impossible to analyse (undefined / duplicate labels, labels without instruction, functions without return, returns outside functions, calls into data, label-only files, the same split into included files) must produce a specific error located on a real label in a user file and visible in the default CLI output, never Unexpected/Assertion errors.",
+         "When several labels are undefined any one may be the location."),
  "C08": ("reference-machine differential monitor + rustc overflow-check sanitizer build",
          "Every mnemonic x operand form is parsed by the real parser and the decoded nodes are executed on the reference machine against the official expansion from boundary and random states; MathOp::operate is compared with a reference ALU on a complete 24x24 boundary grid per operator plus random pairs, in the checked (overflow-checks) and release builds.",
          "Trusts the harness's reference ALU/expansion tables (from the ISA and assembler manuals)."),
@@ -40,13 +52,10 @@ CHECKS = {
          "Trusts the harness's denotation model; boundary sub-space enumerated completely, the rest sampled."),
 }
 
+ # placeholder
 NOT_YET = {
  "C06": "monitor under construction in this round (not yet registered)",
- "C07": "monitor under construction in this round (not yet registered)",
- "C09": "monitor under construction in this round (not yet registered)",
- "C11": "monitor under construction in this round (not yet registered)",
  "C15": "monitor under construction in this round (not yet registered)",
- "C16": "monitor under construction in this round (not yet registered)",
  "C18": "monitor under construction in this round (not yet registered)",
  "C19": "monitor under construction in this round (not yet registered)",
 }
